@@ -1397,6 +1397,8 @@ func (fe *FE) execRange(st *State, x *ssa.Range) bool {
 	if m.T != "0" {
 		db, _, _ := mapBases(mt)
 		st.ghosts["$iterdom_"+x.Name()] = scalar(sel(fe.heapTerm(st, db, arraySort([]string{SInt, ks}, SBool)), m.T), "(Array "+ks+" Bool)", nil)
+		// `rangedom`: key set of the most recently started map range, as it was when the range began
+		st.ghosts["rangedom"] = st.ghosts["$iterdom_"+x.Name()]
 	}
 	st.vals[x] = Val{Kind: VIter, IterMap: m.T, IterVis: vis, IterKT: mt.Key(), IterVT: mt.Elem(), IterID: id, GoT: x.X.Type()}
 	return true
